@@ -189,6 +189,7 @@ where
         loop {
             // 1. Check for timeout
             if start_time.elapsed() > timeout {
+                self.rng = Some(rng);
                 return Err(PlanningError::Timeout);
             }
 
@@ -238,6 +239,7 @@ where
                 // 7. Check if the new node satisfies the goal
                 if goal.is_satisfied(&q_new) {
                     println!("Solution found after {} nodes.", self.tree.len());
+                    self.rng = Some(rng);
                     return Ok(self.reconstruct_path(self.tree.len() - 1));
                 }
             }
